@@ -102,6 +102,56 @@ def run_model(cases, features='ALL'):
             out[parts[0]] = (parts[1], parts[2])
     return out
 
+# ---- Into: the real handler iterates a HashMap of targets, so the order of its
+# `impl ... ::core::convert::Into<..> for ..` items varies from run to run.  When an output
+# holds several such items they are compared as a multiset (sorted in place, at the
+# positions they occupy); every other item keeps its exact position.
+_OPEN, _CLOSE = '([{', ')]}'
+def split_items(toks):
+    """top-level items of a flat token list: an item ends with its top-level {...} body, i.e. a
+    top-level `}` followed by nothing or by the start of the next item (`impl` / `#`); a
+    top-level brace group inside a header (`Foo<{ 1 + 2 }>`) is followed by something else"""
+    items, cur, depth = [], [], 0
+    for k, t in enumerate(toks):
+        cur.append(t)
+        if len(t) == 1 and t in _OPEN:
+            depth += 1
+        elif len(t) == 1 and t in _CLOSE:
+            depth -= 1
+            if depth == 0 and t == '}' and (k + 1 == len(toks) or toks[k + 1] in ('impl', '#')):
+                items.append(cur)
+                cur = []
+    if cur:
+        items.append(cur)
+    return items
+
+_INTO_PATH = [':', ':', 'core', ':', ':', 'convert', ':', ':', 'Into', '<']
+def is_into_item(item):
+    if not item or item[0] != 'impl':
+        return False
+    i = 1
+    if i < len(item) and item[i] == '<':          # impl generics
+        depth = 0
+        while i < len(item):
+            if item[i] == '<':
+                depth += 1
+            elif item[i] == '>' and item[i - 1] != '-':
+                depth -= 1
+                if depth == 0:
+                    i += 1
+                    break
+            i += 1
+    return item[i:i + len(_INTO_PATH)] == _INTO_PATH
+
+def canon_into_order(toks):
+    items = split_items(toks)
+    pos = [i for i, it in enumerate(items) if is_into_item(it)]
+    if len(pos) < 2:
+        return toks
+    for i, it in zip(pos, sorted(items[i] for i in pos)):
+        items[i] = it
+    return [t for it in items for t in it]
+
 def compare(real, model):
     """returns (verdict, detail): verdict in same | ood | diff"""
     rc, rp = real
@@ -113,6 +163,11 @@ def compare(real, model):
             return ('same', '')
         if mc == 'OK':
             a, b = rp.split(SEP), mp.split(SEP)
+            a2, b2 = canon_into_order(a), canon_into_order(b)
+            if a2 == b2:
+                return ('same', '')
+            if sorted(a) == sorted(b):
+                a, b = a2, b2
             i = 0
             while i < min(len(a), len(b)) and a[i] == b[i]:
                 i += 1
@@ -120,7 +175,8 @@ def compare(real, model):
         return ('diff', 'real OK, model %s %s' % (mc, mp))
     if rc == 'ERR':
         k = err_kind(rp.split(' || ')[0])
-        if mc == 'ERR' and mp == k:
+        # the model lists, after `|`, the errors of the other failing Into targets (see above)
+        if mc == 'ERR' and k in mp.split('|'):
             return ('same', '')
         return ('diff', 'real ERR %s (%s), model %s %s' % (k, rp[:80], mc, mp[:80]))
     if rc in ('PANIC', 'CRASH', 'TIMEOUT'):
